@@ -515,8 +515,13 @@ func (vc *VC) havocTarget(env *SpecEnv, st *State, m *SExpr, con *Contract) {
 		vc.assumeWF(st, t, tgt.place.Typ)
 		vc.storePlace(st, tgt.place, t)
 	case "arr":
-		comp := vc.arrComp(tgt.elem)
-		na := vc.declFresh("modarr", sortArray(vc.idxSort(), vc.sortOf(tgt.elem)))
+		comp := vc.tgtArrComp(tgt)
+		var na Term
+		if tgt.comp != "" {
+			na = vc.declFresh("modmap", vc.compSort[comp].Elem)
+		} else {
+			na = vc.declFresh("modarr", sortArray(vc.idxSort(), vc.sortOf(tgt.elem)))
+		}
 		h := vc.heapGet(st.heap, comp)
 		vc.pendingRef = tgt.ref.S
 		vc.heapSet(st, comp, vc.define(comp, tStore(h, tgt.ref, na)))
@@ -532,6 +537,15 @@ type modTgt struct {
 	ref   Term
 	elem  types.Type
 	comp  string
+}
+
+// tgtArrComp: the component of an "arr" target (one object of an array-like component: a slice's backing
+// array, or - with comp set - one map object).
+func (vc *VC) tgtArrComp(t modTgt) string {
+	if t.comp != "" {
+		return t.comp
+	}
+	return vc.arrComp(t.elem)
 }
 
 func (vc *VC) modTarget(env *SpecEnv, m *SExpr) modTgt {
@@ -584,6 +598,15 @@ func (vc *VC) modTarget(env *SpecEnv, m *SExpr) modTgt {
 				env.fail("elems() of non-slice")
 			}
 			return modTgt{kind: "arr", ref: mk("(sl-ref "+v.T.S+")", sortRef), elem: sl.Elem()}
+		}
+		if m.Name == "entries" && len(m.Args) == 1 {
+			// entries(m): the contents of the one map object m refers to
+			v := env.eval(m.Args[0])
+			mt, ok := v.GoT.Underlying().(*types.Map)
+			if !ok {
+				env.fail("entries() of non-map")
+			}
+			return modTgt{kind: "arr", ref: env.termOrLoad(v), comp: vc.mapInfoOf(mt).comp}
 		}
 		if m.Name == "heap" && len(m.Args) == 1 {
 			tn := strings.Trim(m.Args[0].String(), "\"")
